@@ -65,3 +65,11 @@ pub fn h2p_string(i: u64) -> Vec<u8> {
     v.extend_from_slice(H2P_MSG);
     v
 }
+
+/// Seeds (same construction as above) whose key generation goes through unusually many candidates (the typical number is about
+/// a dozen): a bound on the number of attempts, or any state that grows per attempt, shows only on such seeds.
+pub const LONG_STREAM_512: &[(u64, &str)] = &[(3091, "long-stream 117 candidates"), (5387, "long-stream 105 candidates"), (828, "long-stream 104 candidates")];
+pub const LONG_STREAM_1024: &[(u64, &str)] = &[(1331, "long-stream 186 candidates"), (503, "long-stream 177 candidates"), (1087, "long-stream 147 candidates")];
+pub fn long_stream(n: usize) -> &'static [(u64, &'static str)] {
+    if n == 512 { LONG_STREAM_512 } else { LONG_STREAM_1024 }
+}
